@@ -151,12 +151,13 @@ type Env struct {
 	PropID  string
 	simSeconds float64
 	frozen  bool
+	KnownHits map[string]int
 }
 
 const histCap = 400
 
 func NewEnv(prop string, seed uint64, ch *Chooser) *Env {
-	return &Env{PropID: prop, Seed: seed, Ch: ch, streams: map[string]uint64{}, Stats: map[string]int{}, States: map[string]bool{}, Cfg: map[string]any{}}
+	return &Env{PropID: prop, Seed: seed, Ch: ch, streams: map[string]uint64{}, Stats: map[string]int{}, States: map[string]bool{}, Cfg: map[string]any{}, KnownHits: map[string]int{}}
 }
 
 // Rec records an event. hashed events contribute to the canonical trace of their stream.
@@ -248,6 +249,12 @@ func (e *Env) Note(format string, a ...any) {
 func (e *Env) Violate(fingerprint, format string, a ...any) {
 	e.mu.Lock()
 	defer e.mu.Unlock()
+	if KnownFingerprints[fingerprint] {
+		// a recorded known finding: counted, reported as KNOWN-FINDING by the runner, and the run goes
+		// on so that it cannot hide a different violation later in the same run
+		e.KnownHits[fingerprint]++
+		return
+	}
 	if e.Viol == nil {
 		e.Viol = &Violation{Property: e.PropID, Fingerprint: fingerprint, Detail: printable(fmt.Sprintf(format, a...)), AtEvent: e.nEvents}
 		if e.Verbose {
@@ -322,3 +329,6 @@ func canonical(d string) string {
 	d = reCkSum.ReplaceAllString(d, "\x0110=*\x01")
 	return d
 }
+
+// KnownFingerprints is loaded once per worker from known_findings.json (read-only at run time).
+var KnownFingerprints = map[string]bool{}
